@@ -830,6 +830,289 @@ example :
     ∧ (IdleRace.observeQuiet (IdleRace.run (IdleRace.init (raceCfg true)) [1, 1, 1, 0, 0, 0, 0])).obs.shown = [none, some 1]
     ∧ IdleRace.windowFree (IdleRace.init (raceCfg true)) [1, 0, 0, 0, 1, 1] = false := by decide
 
+/-! ## the registry changed behind `Recency`'s back (`Registry::delete_*`, `Registry::clear`, a second observer's
+stale handle snapshot): `Model/Recency.lean: XOp` -/
+
+/-- the state reached by an extended history -/
+def xafter (cfg : Cfg) (xs : List XOp) : St := xrun (init cfg) xs
+
+/-- the extended operation can leave `Recency`'s entry for `i` out of step with the registry: an outside delete of
+    `i`, a `clear`, or a second observer's `should_store_*` for `i` -/
+def XOp.hits (i : Id) : XOp → Bool
+  | .del k key => decide ((k, key) = i)
+  | .clear => true
+  | .stale k key _ => decide ((k, key) = i)
+  | .base _ => false
+
+theorem wf_xafter (cfg : Cfg) (h : cfg.byKind = true) (xs : List XOp) : WF (xafter cfg xs) :=
+  wf_xrun _ _ (wf_init cfg h)
+
+theorem xafter_cfg (cfg : Cfg) (xs : List XOp) : (xafter cfg xs).cfg = cfg := by
+  simp [xafter, xrun_cfg, init]
+
+theorem xafter_snoc (cfg : Cfg) (xs : List XOp) (x : XOp) : xafter cfg (xs ++ [x]) = xstep (xafter cfg xs) x := by
+  simp [xafter, xrun]
+
+/-- **orphan_entry_survives_delete.**  `Registry::delete_*` and `Registry::clear` called from outside remove the metric
+    and leave `Recency`'s entry for it exactly as it was — in every (well-formed) state.  `Recency` offers no operation
+    that forgets an entry, and an observation never visits a key that is not registered (`obsView_unregistered`), so
+    the entry stays until the key is registered again. -/
+theorem orphan_entry_survives_delete (s : St) (h : WF s) (i : Id) :
+    view (xstep s (.del i.1 i.2)) i = (none, (view s i).2) ∧ view (xstep s .clear) i = (none, (view s i).2) ∧
+    view (step (xstep s (.del i.1 i.2)) .observe) i = (none, (view s i).2) := by
+  refine ⟨by rw [view_xstep _ h]; simp [xopView], by rw [view_xstep _ h]; simp [xopView], ?_⟩
+  rw [view_step _ (wf_xstep _ _ h), view_xstep _ h]
+  simp [xopView, opView, obsView]
+
+theorem outside_ops_invisible_aux (cfg : Cfg) (i : Id) (xs : List XOp) (s s' : St) (hwf : WF s) (hwf' : WF s')
+    (hc : s.cfg = cfg) (hc' : s'.cfg = cfg) (hn : s.now = s'.now) (hv : view s i = view s' i)
+    (hx : ∀ x ∈ xs, XOp.hits i x = false) :
+    view (xrun s xs) i = view (run s' (strip xs)) i ∧ (xrun s xs).now = (run s' (strip xs)).now := by
+  induction xs generalizing s s' with
+  | nil => exact ⟨hv, hn⟩
+  | cons x rest ih =>
+    have hrest : ∀ y ∈ rest, XOp.hits i y = false := fun y hy => hx y (List.mem_cons_of_mem _ hy)
+    have hhit := hx x List.mem_cons_self
+    cases x with
+    | base op =>
+      apply ih (xstep s (.base op)) (step s' op) (wf_xstep _ _ hwf) (wf_step _ _ hwf') (by rw [xstep_cfg, hc])
+        (by rw [step_cfg, hc']) _ _ hrest
+      · show (step s op).now = _
+        rw [step_now, step_now, hn]
+      · show view (step s op) i = _
+        rw [view_step _ hwf, view_step _ hwf', hc, hc', hn, hv]
+    | del k key =>
+      apply ih (xstep s (.del k key)) s' (wf_xstep _ _ hwf) hwf' (by rw [xstep_cfg, hc]) hc' (by rw [xstep_now]; exact hn)
+        _ hrest
+      have : ¬ (k, key) = i := by simpa [XOp.hits] using hhit
+      rw [view_xstep _ hwf, ← hv]; simp [xopView, this]
+    | clear => simp [XOp.hits] at hhit
+    | stale k key g =>
+      apply ih (xstep s (.stale k key g)) s' (wf_xstep _ _ hwf) hwf' (by rw [xstep_cfg, hc]) hc'
+        (by rw [xstep_now]; exact hn) _ hrest
+      have : ¬ (k, key) = i := by simpa [XOp.hits] using hhit
+      rw [view_xstep _ hwf, ← hv]; simp [xopView, this]
+
+/-- **outside_ops_on_others_invisible.**  Outside deletes and second-observer visits aimed at OTHER metrics cannot be
+    seen from metric `i`: in every extended history without a `clear`, an outside delete of `i` or a stale visit of
+    `i`, the registry entry, value, generation and `Recency` entry of `i` (and the clock) are those of the history
+    with these operations removed — so every theorem above (`dropped_iff`, `kept_within_timeout`, `kept_if_updated`,
+    `fresh_after_drop`, …) holds for `i` in such histories. -/
+theorem outside_ops_on_others_invisible (cfg : Cfg) (hk : cfg.byKind = true) (i : Id) (xs : List XOp)
+    (hx : ∀ x ∈ xs, XOp.hits i x = false) :
+    view (xafter cfg xs) i = view (after cfg (strip xs)) i ∧ (xafter cfg xs).now = (after cfg (strip xs)).now :=
+  outside_ops_invisible_aux cfg i xs _ _ (wf_init cfg hk) (wf_init cfg hk) rfl rfl rfl rfl hx
+
+/-- **dropped_iff_del_partial.**  `dropped_iff` for extended histories that never delete `i` from outside (deletes of
+    other metrics, and second-observer visits of other metrics, anywhere). -/
+theorem dropped_iff_del_partial (cfg : Cfg) (hk : cfg.byKind = true) (i : Id) (xs : List XOp)
+    (hx : ∀ x ∈ xs, XOp.hits i x = false) (hreg : registered (xafter cfg xs) i) :
+    ¬ registered (xstep (xafter cfg xs) (.base .observe)) i ↔
+      ∃ T t, Covered cfg i.1 T ∧ IdleSince cfg i (strip xs) t ∧ T < (xafter cfg xs).now - t := by
+  have h1 := outside_ops_on_others_invisible cfg hk i xs hx
+  have h2 := outside_ops_on_others_invisible cfg hk i (xs ++ [.base .observe])
+    (by intro x hxm; rcases List.mem_append.mp hxm with h | h
+        · exact hx x h
+        · simp at h; subst h; rfl)
+  rw [xafter_snoc, strip_append] at h2
+  have hs : strip [XOp.base Op.observe] = [Op.observe] := rfl
+  rw [hs, after_snoc] at h2
+  have hreg' : registered (after cfg (strip xs)) i := by
+    unfold registered at hreg ⊢
+    have : lookup (xafter cfg xs).metrics i = lookup (after cfg (strip xs)).metrics i := congrArg Prod.fst h1.1
+    rw [← this]; exact hreg
+  have := dropped_iff cfg hk i (strip xs) hreg'
+  rw [← h1.2] at this
+  rw [← this]
+  have e : lookup (xstep (xafter cfg xs) (.base .observe)).metrics i
+      = lookup (step (after cfg (strip xs)) .observe).metrics i := congrArg Prod.fst h2.1
+  unfold registered
+  rw [e]
+
+/-- **kept_if_updated_del_partial.**  `kept_if_updated` for extended histories: a metric updated since the previous
+    observation is kept with its full value and generation by the next observation, whatever else was deleted from
+    outside — provided the history never removed THIS metric behind `Recency`'s back (no `clear`, no outside delete of
+    it, no second-observer visit of it).  Without the proviso the statement is false: `kept_if_updated_del_false`. -/
+theorem kept_if_updated_del_partial (cfg : Cfg) (hk : cfg.byKind = true) (k : Kind) (key : Key) (u : Upd)
+    (pre mid : List XOp) (hpre : ∀ x ∈ pre, XOp.hits (k, key) x = false)
+    (hmid : ∀ x ∈ mid, XOp.hits (k, key) x = false ∧ x ≠ .base .observe) :
+    let s := xafter cfg (pre ++ XOp.base (.upd k key u) :: mid)
+    registered s (k, key) ∧ lookup (xstep s (.base .observe)).metrics (k, key) = lookup s.metrics (k, key) := by
+  intro s
+  have hx : ∀ x ∈ pre ++ XOp.base (.upd k key u) :: mid, XOp.hits (k, key) x = false := by
+    intro x hxm
+    rcases List.mem_append.mp hxm with h | h
+    · exact hpre x h
+    · rcases List.mem_cons.mp h with h | h
+      · subst h; rfl
+      · exact (hmid x h).1
+  have h1 := outside_ops_on_others_invisible cfg hk (k, key) _ hx
+  have h2 := outside_ops_on_others_invisible cfg hk (k, key) ((pre ++ XOp.base (.upd k key u) :: mid) ++ [.base .observe])
+    (by intro x hxm; rcases List.mem_append.mp hxm with h | h
+        · exact hx x h
+        · simp at h; subst h; rfl)
+  rw [xafter_snoc, strip_append] at h2
+  have hs : strip [XOp.base Op.observe] = [Op.observe] := rfl
+  rw [hs, after_snoc] at h2
+  have hst : strip (pre ++ XOp.base (.upd k key u) :: mid) = strip pre ++ Op.upd k key u :: strip mid := by
+    rw [strip_append]; rfl
+  rw [hst] at h1 h2
+  have hmid' : ∀ op ∈ strip mid, op.target.isSome ∨ ∃ n, op = .adv n := by
+    intro op hop
+    have hm := (mem_strip op mid).mp hop
+    have hne := (hmid _ hm).2
+    cases op with
+    | reg k' key' => left; rfl
+    | upd k' key' u' => left; rfl
+    | adv n => right; exact ⟨n, rfl⟩
+    | observe => exact absurd rfl hne
+  have hb := kept_if_updated cfg hk k key u (strip pre) (strip mid) hmid'
+  have e1 : lookup s.metrics (k, key) = lookup (after cfg (strip pre ++ Op.upd k key u :: strip mid)).metrics (k, key) :=
+    congrArg Prod.fst h1.1
+  have e2 : lookup (xstep s (.base .observe)).metrics (k, key)
+      = lookup (step (after cfg (strip pre ++ Op.upd k key u :: strip mid)) .observe).metrics (k, key) :=
+    congrArg Prod.fst h2.1
+  refine ⟨?_, ?_⟩
+  · unfold registered; rw [e1]; exact hb.1
+  · rw [e1, e2]; exact hb.2
+
+/-- **never_dropped_uncovered_del.**  In EVERY extended history (outside deletes, clears and stale visits of the metric
+    itself included): without a timeout, or for a kind outside the mask, no observation removes anything. -/
+theorem never_dropped_uncovered_del (cfg : Cfg) (hk : cfg.byKind = true) (i : Id) (xs : List XOp)
+    (h : cfg.timeout = none ∨ maskMatches cfg.mask i.1 = false) :
+    lookup (xstep (xafter cfg xs) (.base .observe)).metrics i = lookup (xafter cfg xs).metrics i := by
+  show (view (step (xafter cfg xs) .observe) i).1 = (view (xafter cfg xs) i).1
+  rw [view_step _ (wf_xafter cfg hk xs), xafter_cfg]
+  rcases h with h | h
+  · simp only [opView, obsView_no_timeout _ _ _ _ h]
+  · simp only [opView, obsView_outside_mask _ _ _ _ h]
+
+/-- the history of the finding: one update, an observation (entry `(1, 0)`), the metric deleted from outside and
+    created again by one update (generation 1 again), the clock past the timeout -/
+def orphanHistory (k : Kind) (key : Key) (u u' : Upd) (T : Nat) : List XOp :=
+  [.base (.upd k key u), .base .observe, .del k key, .base (.upd k key u'), .base (.adv (T + 1))]
+
+/-- **orphan_entry_drops_updated_metric — FINDING (K-C12-orphan-entry).**  For EVERY timeout `T`, covered kind, key and
+    updates: after `update; observe; Registry::delete_*; update; clock + (T+1)` the metric is registered as a brand-new
+    series (generation 1, value = zero + the one update) that was created AND updated after the previous observation —
+    and the next observation deletes it: the entry `(1, 0)` that outlived the outside delete carries the new storage's
+    generation.  Replayed on the real `Recency` + `Registry` (harness corpus-del=0). -/
+theorem orphan_entry_drops_updated_metric (cfg : Cfg) (hk : cfg.byKind = true) (T : Nat) (k : Kind) (key : Key)
+    (u u' : Upd) (hc : Covered cfg k T) :
+    let s := xafter cfg (orphanHistory k key u u' T)
+    lookup s.metrics (k, key) = some ⟨1, (Val.zero k).apply u'⟩ ∧
+    ¬ registered (xstep s (.base .observe)) (k, key) := by
+  intro s
+  have hview : view s (k, key) = (some ⟨1, (Val.zero k).apply u'⟩, some (1, 0)) ∧ s.now = T + 1 := by
+    let s1 := xstep (init cfg) (.base (.upd k key u))
+    let s2 := xstep s1 (.base .observe)
+    let s3 := xstep s2 (.del k key)
+    let s4 := xstep s3 (.base (.upd k key u'))
+    let s5 := xstep s4 (.base (.adv (T + 1)))
+    have w0 : WF (init cfg) := wf_init cfg hk
+    have w1 : WF s1 := wf_xstep _ _ w0
+    have w2 : WF s2 := wf_xstep _ _ w1
+    have w3 : WF s3 := wf_xstep _ _ w2
+    have w4 : WF s4 := wf_xstep _ _ w3
+    have c1 : s1.cfg = cfg := xstep_cfg _ _
+    have c2 : s2.cfg = cfg := (xstep_cfg _ _).trans c1
+    have c3 : s3.cfg = cfg := (xstep_cfg _ _).trans c2
+    have c4 : s4.cfg = cfg := (xstep_cfg _ _).trans c3
+    have n1 : s1.now = 0 := rfl
+    have n2 : s2.now = 0 := (xstep_now _ _).trans n1
+    have n3 : s3.now = 0 := (xstep_now _ _).trans n2
+    have n4 : s4.now = 0 := (xstep_now _ _).trans n3
+    have n5 : s5.now = T + 1 := by
+      have := xstep_now s4 (.base (.adv (T + 1)))
+      simp only [n4] at this
+      simpa using this
+    have v0 : view (init cfg) (k, key) = (none, none) := by simp [view, init]
+    have v1 : view s1 (k, key) = (some ⟨1, (Val.zero k).apply u⟩, none) := by
+      show view (xstep (init cfg) _) _ = _
+      rw [view_xstep _ w0, v0]; simp [xopView, opView, fresh]
+    have v2 : view s2 (k, key) = (some ⟨1, (Val.zero k).apply u⟩, some (1, 0)) := by
+      show view (xstep s1 _) _ = _
+      rw [view_xstep _ w1, v1, n1, c1]
+      simp only [xopView, opView]
+      exact obsView_first cfg k 0 T _ hc
+    have v3 : view s3 (k, key) = (none, some (1, 0)) := by
+      show view (xstep s2 _) _ = _
+      rw [view_xstep _ w2, v2]; simp [xopView]
+    have v4 : view s4 (k, key) = (some ⟨1, (Val.zero k).apply u'⟩, some (1, 0)) := by
+      show view (xstep s3 _) _ = _
+      rw [view_xstep _ w3, v3]; simp [xopView, opView, fresh]
+    have v5 : view s5 (k, key) = (some ⟨1, (Val.zero k).apply u'⟩, some (1, 0)) := by
+      show view (xstep s4 _) _ = _
+      rw [view_xstep _ w4, v4]; simp [xopView, opView]
+    exact ⟨v5, n5⟩
+  refine ⟨congrArg Prod.fst hview.1, ?_⟩
+  rw [registered_iff]
+  show ¬ ∃ m, (view (step s .observe) (k, key)).1 = some m
+  rw [view_step _ (wf_xafter cfg hk _), xafter_cfg, hview.1, hview.2]
+  simp only [opView]
+  have := obsView_expired cfg k (T + 1) T ⟨1, (Val.zero k).apply u'⟩ 0 hc (by omega)
+  rw [this]
+  rintro ⟨_, h⟩; cases h
+
+/-- **kept_if_updated_del_false.**  "A metric updated since the previous observation is always kept" is FALSE of the
+    code once the public `Registry::delete_*` is part of the histories (the negation of `kept_if_updated_del_partial`
+    without its proviso). -/
+theorem kept_if_updated_del_false :
+    ¬ ∀ (cfg : Cfg), cfg.byKind = true → ∀ (k : Kind) (key : Key) (u : Upd) (pre mid : List XOp),
+      (∀ x ∈ mid, x ≠ .base .observe) →
+      registered (xstep (xafter cfg (pre ++ XOp.base (.upd k key u) :: mid)) (.base .observe)) (k, key) := by
+  intro h
+  have hc : Covered ({ mask := 7, timeout := some 10 } : Cfg) .counter 10 := ⟨rfl, by decide⟩
+  have := (orphan_entry_drops_updated_metric { mask := 7, timeout := some 10 } rfl 10 .counter ['a'] (.inc 1) (.inc 1) hc).2
+  apply this
+  exact h { mask := 7, timeout := some 10 } rfl .counter ['a'] (.inc 1)
+    [.base (.upd .counter ['a'] (.inc 1)), .base .observe, .del .counter ['a']] [.base (.adv 11)]
+    (by intro x hx; simp at hx; subst hx; intro e; cases e)
+
+/-- the same through two overlapping renders of the shipped exporter, at loop-iteration granularity: R2 takes its
+    handle snapshot; R1 (the observation) drops the idle metric and removes its entry; R2's iteration for the key calls
+    `should_store_*` with the old handle's generation -/
+def overlapHistory (k : Kind) (key : Key) (u u' : Upd) (T : Nat) : List XOp :=
+  [.base (.upd k key u), .base .observe, .base (.adv (T + 1)), .base .observe, .stale k key 1,
+   .base (.adv (T + 1)), .base (.upd k key u')]
+
+/-- **overlapping_render_orphans_entry — FINDING (K-C12-orphan-entry, second route).**  Kernel-evaluated witness
+    (timeout 10, counter): after R1 dropped the idle counter, R2's `should_store_counter` with the generation of its
+    snapshot handle answers "keep" for a metric that is no longer registered and re-creates the entry `(1, 11)`; the
+    counter registered and incremented anew at t = 22 is deleted by the next observation.  Without R2's visit it is
+    kept. -/
+theorem overlapping_render_orphans_entry :
+    let cfg : Cfg := { mask := 7, timeout := some 10 }
+    let i : Id := (.counter, ['a'])
+    view (xafter cfg ((overlapHistory .counter ['a'] (.inc 1) (.inc 1) 10).take 5)) i = (none, some (1, 11))
+    ∧ lookup (xafter cfg (overlapHistory .counter ['a'] (.inc 1) (.inc 1) 10)).metrics i = some ⟨1, .c 1⟩
+    ∧ ¬ registered (xstep (xafter cfg (overlapHistory .counter ['a'] (.inc 1) (.inc 1) 10)) (.base .observe)) i
+    ∧ registered (xstep (xafter cfg ((overlapHistory .counter ['a'] (.inc 1) (.inc 1) 10).eraseIdx 4)) (.base .observe)) i := by
+  decide
+
+/-- non-vacuity of the partial theorems: the delete of ANOTHER metric (gauge under the same key, counter under
+    another key) and a clear BEFORE the metric first exists... the latter hits; here only the former: kept -/
+example :
+    let cfg : Cfg := { mask := 7, timeout := some 10 }
+    let xs : List XOp := [.base (.upd .gauge ['a'] (.set 1)), .base (.upd .counter ['a'] (.inc 1)), .base .observe,
+      .del .gauge ['a'], .del .counter ['b'], .base (.upd .counter ['a'] (.inc 1)), .base (.adv 11)]
+    (∀ x ∈ xs, XOp.hits (.counter, ['a']) x = false) ∧
+    lookup (xstep (xafter cfg xs) (.base .observe)).metrics (.counter, ['a']) = some ⟨2, .c 2⟩ ∧
+    lookup (xstep (xafter cfg xs) (.base .observe)).metrics (.gauge, ['a']) = none := by
+  decide
+
+/-- the early drop: re-created at t = 8, first seen at t = 9 (kept, the orphan's stamp 0 stays), deleted at t = 11
+    after 2 ≤ 10 idle ticks; with two updates after the re-creation (generation 2 ≠ 1) the entry is refreshed and the
+    metric is kept -/
+example :
+    let cfg : Cfg := { mask := 1, timeout := some 10 }
+    let h (n : List XOp) : List XOp := [.base (.upd .counter ['a'] (.inc 1)), .base .observe, .del .counter ['a'],
+      .base (.adv 8)] ++ n ++ [.base (.adv 1), .base .observe, .base (.adv 2)]
+    ¬ registered (xstep (xafter cfg (h [.base (.upd .counter ['a'] (.inc 7))])) (.base .observe)) (.counter, ['a']) ∧
+    registered (xstep (xafter cfg (h [.base (.upd .counter ['a'] (.inc 7)), .base (.upd .counter ['a'] (.inc 0))]))
+      (.base .observe)) (.counter, ['a']) := by
+  decide
+
 /-- SOURCE FACT (regenerated from the repository on every run): `should_store` compares the stored generation with
     the generation its CALLER read earlier, and then deletes through a closure that is given the key only;
     `Registry::delete_counter/gauge/histogram` take the key only and do not look at a generation; the exporter's
@@ -846,5 +1129,24 @@ theorem src_idle_delete_unconditional :
         ["&self,key:&K->bool:unconditional", "&self,key:&K->bool:unconditional", "&self,key:&K->bool:unconditional"]
     ∧ Generated.prom_counter_store_order = ["generation", "should_store", "value"]
     ∧ Generated.prom_gauge_store_order = ["generation", "should_store", "value"] := by decide
+
+/-- SOURCE FACT (regenerated on every run) behind `XOp`: with no entry for the key `should_store` inserts
+    `(gen, now)` and keeps — it never asks whether the key is still registered (`XOp.stale` on an absent metric);
+    `Recency`'s public operations are `new` and the three `should_store_*`: none forgets an entry (`XOp.del` / `XOp.clear`
+    leave `entries` alone); `Registry::clear` empties exactly the three metric maps. -/
+theorem src_orphan_entry_shape :
+    Generated.recency_should_store_none_arm = "entries.insert(key.clone(),(gen,now));false"
+    ∧ Generated.recency_pub_fns = ["new", "should_store_counter", "should_store_gauge", "should_store_histogram"]
+    ∧ Generated.registry_clear_fields = ["counters", "gauges", "histograms"] := by decide
+
+/-- SOURCE FACT: every public constructor of the exporter reaches `Recency::new(clock, self.recency_mask,
+    self.idle_timeout)` through `build_recorder` → `build_with_clock`, and none of `install`, `install_recorder`,
+    `build`, `build_recorder` assigns the mask or the timeout on the way — the configuration driven through the
+    `verif_build_with_clock` hook and `build_recorder()` is the one the HTTP-listener / push-gateway constructors use. -/
+theorem src_prom_constructors_share_recency :
+    Generated.prom_builder_recency_new_args = "clock,self.recency_mask,self.idle_timeout"
+    ∧ Generated.prom_builder_constructors =
+        ["install:build():as-configured", "install_recorder:build_recorder():as-configured",
+         "build:build_recorder():as-configured", "build_recorder:build_with_clock(Clock::new()):as-configured"] := by decide
 
 end MetricsVerif.C12
